@@ -42,7 +42,12 @@ def run(ctx):
     rep.guarded("forward", WR, lambda: rule_forward(facts, rep))
     rep.guarded("tables", A, lambda: rule_tables(facts, rep))
     rep.guarded("adapted-string", "anstream::_macros::to_adapted_string", lambda: rule_adapted(facts, rep))
-    for r, n in (("ctor", 9), ("forward", 16), ("tables", 8), ("adapted-string", 4)):
+    # "forwards every byte unchanged" and "taking the inner writer back returns all bytes delivered" go through what
+    # as_locked_write() hands out for each raw stream: the stream itself, a deref of it, or std's lock guard — never a writer with a
+    # buffer or an error policy of its own (the impl-set rule of C19, evaluated here too)
+    from rules import C19
+    rep.guarded("sealed", "anstream::stream::AsLockedWrite", lambda: C19.rule_sealed(facts, rep))
+    for r, n in (("ctor", 9), ("forward", 16), ("tables", 8), ("adapted-string", 4), ("sealed", 13)):
         rep.floor(r, n)
 
 
